@@ -274,7 +274,7 @@ var specExtreme = pbt.Register(&pbt.Spec[Case]{
 			}
 		}
 	},
-	Run: Run,
+	Run: Run, Replicas: 4, ReplicaEvery: 8,
 })
 
 func TestC08Extreme(t *testing.T) { pbt.Check(t, specExtreme) }
